@@ -484,9 +484,9 @@ func (p *Parser) ParseErrorStatement() (*ast.ErrorStatement, error) {
 	// If code exists, attach comment to it as Trailing
 	case stmt.Code != nil:
 		SwapLeadingTrailing(p.curToken, stmt.Code.GetMeta())
-	// Otherwise, attach comment to the statement as Trailing
+	// Otherwise, attach comment to the statement as Infix (Trailing is assigned below)
 	default:
-		SwapLeadingTrailing(p.curToken, stmt.Meta)
+		SwapLeadingInfix(p.curToken, stmt.Meta)
 	}
 	stmt.Trailing = p.Trailing()
 
